@@ -61,7 +61,7 @@ def program_space(rep: Report, t: str, rng: random.Random, runner: execbox.Runne
     # programs of the other properties' generator specs that run and print (identifier scenarios, function pairs, libraries)
     import crossfeed
     cross = [(k, p) for k, p, o in crossfeed.inputs(rep, t, rng, per_space=100 if t == "quick" else 1200)
-             if k.startswith(("rename:", "alpha:", "surface:", "boolalg:", "ranges:")) and not o.get("safe")]
+             if k.startswith(("rename:", "alpha:", "surface:", "boolalg:", "ranges:", "reach:")) and not o.get("safe")]
     cands = progs + variants + cross
     # inside the class of C01: terminates normally, twice, with identical output
     first = runner.observe_many([p for _, p in cands])
@@ -103,8 +103,9 @@ def main(argv=None) -> int:
     try:
         progs = program_space(rep, t, rng, runner, n_gen=800 if t == "quick" else 9000, n_snip=None)
         if t == "quick":
-            gen = [x for x in progs if x[0].startswith("gen:")]
-            snip = [x for x in progs if not x[0].startswith("gen:")]
+            always = ("gen:", "reach:directed:", "boolalg:pairs:")
+            gen = [x for x in progs if x[0].startswith(always)]
+            snip = [x for x in progs if not x[0].startswith(always)]
             progs = gen + rng.sample(snip, min(700, len(snip)))
         items = []
         for key, text in progs:
